@@ -90,7 +90,8 @@ def parse_format(node, const_str=None):
     ch = text[i]
     if ch.isdigit():
       num += ch
-    elif ch == '%' and i + 1 < len(text) and text[i + 1] == 'd':
+    elif ch == '%' and i + 1 < len(text) and text[i + 1] in 'di' or (ch == '%' and i + 2 < len(text) and text[i + 1] == 's' and text[i + 2] in SIZES):
+      # '%d' count; '%s' directly in front of a struct code is the same count written through str() (f'{n}s')
       if si >= len(syms):
         return None
       num = None
